@@ -16,7 +16,7 @@ be a behaviour of IterProto).
     observations become one RobustTrace event file that TLC validates.
 Level: exploration (the byte space is sampled; the protocol spec is model-checked).
 """
-import json, os, random, threading, time
+import json, os, os, random, threading, time
 from concurrent.futures import ThreadPoolExecutor
 from vlib import read_ndjson, write_ndjson, canon, ToolError, SPEC, VERIF, log
 
@@ -552,6 +552,31 @@ def run(ctx):
         ctx.cov["corrupted_trace_control"] = {"corrupted": want, "rejected": [d["why"] for _, d in got]}
         if len(got) != len(bad) - 1:
             raise ToolError("corrupted-trace control: TLC rejected %d of %d corrupted events" % (len(got), len(bad) - 1))
+
+    # ---- spec-generated expression programs (MCExpr, the C07 model) as C01 inputs: every program of
+    # the arithmetic slice with every resume answer, both profiles; only the outcome alphabet is
+    # judged here (panic / abort / timeout are violations; values are C07's business)
+    try:
+        import c07
+        from vlib import SPEC as _SPEC
+        alpha = c07.ARITH + c07.STACK[:3] + c07.CONST
+        cfgname = "MCExpr_c01_run"
+        with open(os.path.join(_SPEC, cfgname + ".cfg"), "w") as f:
+            f.write("INIT Init\nNEXT Next\nINVARIANT MachineInv\nINVARIANT Emit\nCONSTRAINT Horizon\nCHECK_DEADLOCK FALSE\nCONSTANTS\n")
+            f.write("  Alpha = %s\n  MaxLen = %d\n  MaxIters = {999}\n  Stores = {\"heap\"}\n  Inits = {\"none\"}\n" %
+                    (c07.tlaset(alpha), 2 if ctx.quick else 3))
+        rx = ctx.tlc("MCExpr", cfgname, timeout=1200)
+        for prof in ("dev", "release"):
+            bx = ctx.build("gvh-expr", prof)
+            ox = ctx.replay(bx, rx.cases_path, tag="c01-expr-" + prof)
+            for i, o in ox.items():
+                if isinstance(o, dict) and "outcome" in o:
+                    ctx.violation("%s:%s" % (o["outcome"], o.get("loc", "expr")),
+                                  "expression evaluation did not return normally (%s profile, MCExpr case %d): %s" % (prof, i, str(o)[:300]),
+                                  {"mcexpr_case": i, "profile": prof}, o)
+        ctx.cov["mcexpr_programs"] = rx.ncases
+    except ImportError:
+        pass
 
     # ---- model checking results
     mt.join()
